@@ -149,19 +149,25 @@ theorem neutral_append {a b : Str} (ha : Neutral a) (hb : Neutral b) : Neutral (
   intro rest i o ho
   rw [List.append_assoc, ha _ _ _ ho, hb _ _ _ ho, List.length_append, Nat.add_assoc]
 
-theorem firstCloseGo_open (c : Char) (rest : Str) (i : Nat) (o : Int) :
-    firstCloseGo ('{' :: c :: rest) i o = firstCloseGo rest (i + 2) (o + 1) := by
+theorem firstCloseGo_open1 (rest : Str) (i : Nat) (o : Int) :
+    firstCloseGo ('{' :: rest) i o = firstCloseGo rest (i + 1) (o + 1) := by
   rw [firstCloseGo]
+
+theorem firstCloseGo_open (c : Char) (hc : c ≠ '{' ∧ c ≠ '}') (rest : Str) (i : Nat) (o : Int) :
+    firstCloseGo ('{' :: c :: rest) i o = firstCloseGo rest (i + 2) (o + 1) := by
+  rw [firstCloseGo_open1]
+  have := firstCloseGo_skip [c] rest (i + 1) (o + 1) (by intro x hx; simp at hx; subst hx; exact hc)
+  simpa using this
 
 theorem firstCloseGo_close (rest : Str) (i : Nat) (o : Int) :
     firstCloseGo ('}' :: rest) i o = if o - 1 == 0 then some i else firstCloseGo rest (i + 1) (o - 1) := by
   rw [firstCloseGo]
 
-theorem neutral_braces (c : Char) {mid a : Str} (hm : NoBrace mid) (ha : Neutral a) :
+theorem neutral_braces (c : Char) (hc : c ≠ '{' ∧ c ≠ '}') {mid a : Str} (hm : NoBrace mid) (ha : Neutral a) :
     Neutral ('{' :: c :: (mid ++ (a ++ ['}']))) := by
   intro rest i o ho
   simp only [List.cons_append, List.append_assoc]
-  rw [firstCloseGo_open, firstCloseGo_skip _ _ _ _ hm, ha _ _ _ (by omega), List.nil_append, firstCloseGo_close]
+  rw [firstCloseGo_open c hc, firstCloseGo_skip _ _ _ _ hm, ha _ _ _ (by omega), List.nil_append, firstCloseGo_close]
   have h0 : (o + 1 - 1 == 0) = false := by
     rw [beq_eq_false_iff_ne]; omega
   have e1 : o + 1 - 1 = o := by omega
@@ -174,18 +180,18 @@ theorem neutral_cons {c : Char} {a : Str} (hc : c ≠ '{' ∧ c ≠ '}') (ha : N
   neutral_append (a := [c]) (neutral_noBrace (by intro x hx; simp at hx; subst hx; exact hc)) ha
 
 /-- the brace counter on `${` c mid a `}` Y stops at the brace that closes the `${` -/
-theorem firstClose_braces (c : Char) {mid a : Str} (Y : Str) (hm : NoBrace mid) (ha : Neutral a) :
+theorem firstClose_braces (c : Char) (hc : c ≠ '{' ∧ c ≠ '}') {mid a : Str} (Y : Str) (hm : NoBrace mid) (ha : Neutral a) :
     firstClose ('$' :: '{' :: c :: (mid ++ (a ++ '}' :: Y))) = some (3 + mid.length + a.length) := by
   unfold firstClose
   rw [firstCloseGo]
-  · rw [firstCloseGo_open, firstCloseGo_skip _ _ _ _ hm, ha _ _ _ (by omega), firstCloseGo_close]
+  · rw [firstCloseGo_open c hc, firstCloseGo_skip _ _ _ _ hm, ha _ _ _ (by omega), firstCloseGo_close]
     simp
   all_goals (intros; simp_all)
 
-theorem subOf_restOf_braces (c : Char) {mid a : Str} (Y : Str) (hm : NoBrace mid) (ha : Neutral a) :
+theorem subOf_restOf_braces (c : Char) (hc : c ≠ '{' ∧ c ≠ '}') {mid a : Str} (Y : Str) (hm : NoBrace mid) (ha : Neutral a) :
     subOf ('$' :: '{' :: c :: (mid ++ (a ++ '}' :: Y))) = '$' :: '{' :: c :: (mid ++ (a ++ ['}'])) ∧
     restOf ('$' :: '{' :: c :: (mid ++ (a ++ '}' :: Y))) = Y := by
-  have h := firstClose_braces c Y hm ha
+  have h := firstClose_braces c hc Y hm ha
   unfold subOf restOf
   rw [h]
   have e : '$' :: '{' :: c :: (mid ++ (a ++ '}' :: Y)) = ('$' :: '{' :: c :: (mid ++ (a ++ ['}']))) ++ Y := by simp
@@ -216,7 +222,7 @@ theorem rrepl_braced (env : Env) (n : Str) (hn : validName n = true) :
     rrepl env ('$' :: '{' :: (n ++ ['}'])) = .ok ((env n).getD []) := by
   obtain ⟨c, cs, rfl, hc, hall⟩ := validName_cases hn
   have hcs : NoBrace cs := noBrace_name (fun x hx => hall x (List.mem_cons_of_mem _ hx))
-  have hsr := subOf_restOf_braces c (mid := cs) (a := []) [] hcs neutral_nil
+  have hsr := subOf_restOf_braces c (noBrace_name hall c (List.mem_cons_self ..)) (mid := cs) (a := []) [] hcs neutral_nil
   simp only [List.nil_append] at hsr
   rw [rrepl, replK]
   simp only [List.cons_append]
